@@ -47,7 +47,11 @@ LEVEL_NOTE = (
     "termination proof; the equivalence clause is differential testing). Termination is proved modulo termination of each callee "
     "(parser.parse, subproc_toks, get_logical_line, find_next_break) and checked end-to-end by the wall-clock stream. The Lean "
     "scanners treat only ASCII letters/digits as identifier characters (str.isalnum is Unicode-aware): correspondence inputs are ASCII. "
-    "Argument-level differences of a single bare command (C04's subject) are kept out of the grammar on purpose."
+    "Argument-level differences of a single bare command (C04's subject) are kept out of the grammar on purpose; so are words that are "
+    "Python keywords (in / is / not / if / for), words with a comma and bracket words ({a}, [b], a[0]): they were seen to produce further "
+    "wrong rewrites of the same families as the recorded findings and would need classifiers of their own. A difference must reproduce "
+    "three times (pipelines of thread-backed aliases are occasionally racy; a pipeline that hangs while RUNNING is C09's subject and is "
+    "only counted here after both forms were shown to parse)."
 )
 
 # ====================================================================================== grammar of command lines
@@ -416,8 +420,8 @@ def features(st):
             continue
         if it[0] == "seg" and it[2][2] == "bare" and not first:
             ok, msg = pyparsable(it[1])
-            if not ok and "can't assign" in msg:
-                out.add(K_ASSIGN)
+            if not ok and ("can't assign" in msg or "only single target can be annotated" in msg):
+                out.add(K_ASSIGN)  # errors raised by grammar ACTIONS: they carry the location of the statement start
         first = False
     # -- B: the logical line ends with the `)` of a group whose last operand needs the context-free wrap
     if items and items[-1] == (")",) and st["pos"] in ("line", "after-semi", "trailing-comment"):
@@ -960,6 +964,52 @@ def _parse_codes(cs):
     return _parse_only(uncodes(cs))
 
 
+def _empty_wrap_probe(cs):
+    """the mechanism test for the known hang: run the compilation for a few seconds with execer.subproc_toks observed; does it hand back
+    lines with an EMPTY or CROSSING wrap (no `line[:b] + '![' + line[b:e] + ']' + line[e:]` with b < e explains the result — the case the
+    Lean wrap theorem excludes by `beg ≤ end`), and do those lines keep growing?"""
+    import signal
+
+    import xonsh.execer as xe
+
+    S = session()
+    _child_init()
+    src = uncodes(cs)
+    seen = {"bad": 0, "lens": []}
+    orig = xe.subproc_toks
+
+    def spy(line, *a, **kw):
+        r = orig(line, *a, **kw)
+        if isinstance(r, str) and kw.get("returnline"):
+            ok = False
+            for b in range(len(line) + 1):
+                if r.startswith(line[:b] + "!["):
+                    rest = r[b + 2 :]
+                    if any(rest == line[b:e] + "]" + line[e:] for e in range(b + 1, len(line) + 1)):
+                        ok = True
+                        break
+            if not ok:
+                seen["bad"] += 1
+                seen["lens"].append(len(r))
+        return r
+
+    def stop(*_):
+        raise TimeoutError
+
+    xe.subproc_toks = spy
+    signal.signal(signal.SIGALRM, stop)
+    signal.alarm(5)
+    try:
+        S["execer"].compile(src, glbs={}, locs={}, mode="exec", filename="<c03>")
+    except BaseException:  # noqa: BLE001
+        pass
+    finally:
+        signal.alarm(0)
+        xe.subproc_toks = orig
+    lens = seen["lens"]
+    return {"empty_or_crossing_wraps": seen["bad"], "growing": len(lens) >= 4 and all(x < y for x, y in zip(lens[-4:], lens[-3:])), "last_lengths": lens[-6:]}
+
+
 def pyparsable_whole_safe(s):
     try:
         return pyparsable_whole(s)
@@ -973,10 +1023,11 @@ def judge_parse(ctx, name, s, r):
     if r == common.HANG:
         ctx.count(f"{name}/HANG")
         key = None
+        probe = common.map_in_child(_empty_wrap_probe, [codes(s)], per_item_timeout=40, label="c03-probe")[0]
         for f in ctx.known:
-            if f.get("status") == "open" and f.get("outcome") == "hang" and internal_trigger(f, s):
+            if f.get("status") == "open" and f.get("outcome") == "hang" and isinstance(probe, dict) and probe.get("empty_or_crossing_wraps", 0) >= 4 and probe.get("growing"):
                 key = f["key"]
-        ctx.spec_failure(case, "no answer within the time limit (child killed)", "detection does not terminate in time on this input", key)
+        ctx.spec_failure(case, {"outcome": "no answer within the time limit (child killed)", "mechanism_probe": probe}, "detection does not terminate in time on this input", key)
         return
     if isinstance(r, dict) and "__exc__" in r:
         raise common.InfraError(f"C03 parse worker failed on {shown!r}: {r['__exc__'][-600:]}")
